@@ -25,7 +25,13 @@ type Case struct {
 	Kind  string   `json:"kind"`  // c03-pos | c03-neg | c07 | c04
 	Class string   `json:"class"` // structural class of the case (finding keys, distinct keys)
 	Rule  RuleSpec `json:"rule"`
-	Req   reqSpec  `json:"req"`
+	// Mux: "" = default mux options, "custom-codecs" = two extra media types
+	// registered with larking.CodecOption.
+	Mux string `json:"mux,omitempty"`
+	// Handler (c04): what the handler does with response metadata before it
+	// returns (grpc.SetHeader / SendHeader / SetTrailer).
+	Handler string  `json:"handler,omitempty"`
+	Req     reqSpec `json:"req"`
 	// Msg: wire bytes (type Rule.In) of the message the handler must receive
 	// (c03-pos), of the base message holding the other path values (c03-neg).
 	Msg     []byte `json:"msg,omitempty"`
@@ -128,41 +134,84 @@ func bodySnippet(b []byte) string {
 	return string(b)
 }
 
-// execPos: the handler must receive exactly Msg.
+// posOnce serves the request once; kind is "" when the handler received
+// exactly M.
+func posOnce(e *env, c *Case, M proto.Message, q reqSpec) (kind, what, inconcl string, resp *wire.Resp) {
+	resp, calls := serve(e, q)
+	if resp.Wedged {
+		return "", "", "request did not return within the watchdog", resp
+	}
+	via := ""
+	if q.Transport != "" {
+		via = " [body delivered as " + q.Transport + "]"
+	}
+	if resp.Panic != nil {
+		return resp.Panic.Key(), fmt.Sprintf("%s %s?%s%s panicked: %s", q.Verb, q.Path, q.RawQuery, via, resp.Panic.Value), "", resp
+	}
+	switch {
+	case len(calls) == 0:
+		return "c03:rejected-valid", fmt.Sprintf("rule %s %s body=%q: %s %s?%s%s answered %d (%s) instead of delivering %s",
+			c.Rule.Verb, c.Rule.Tmpl, c.Rule.Body, q.Verb, q.Path, q.RawQuery, via, resp.Code, bodySnippet(resp.Body), jsonOf(M)), "", resp
+	case len(calls) > 1:
+		return "c03:handler-invoked-twice", fmt.Sprintf("%d handler invocations", len(calls)), "", resp
+	case !proto.Equal(calls[0].msg, M):
+		return "c03:wrong-value", fmt.Sprintf("rule %s %s body=%q: %s %s?%s%s delivered a different message: %s",
+			c.Rule.Verb, c.Rule.Tmpl, c.Rule.Body, q.Verb, q.Path, q.RawQuery, via, diffFields(M, calls[0].msg)), "", resp
+	}
+	return "", "", "", resp
+}
+
+// execPos: the handler must receive exactly Msg. A failure of a request with
+// a non-default delivery feature is retried the plain way: if that works the
+// finding is keyed by the delivery feature instead of the field class.
 func execPos(e *env, c *Case) (o outcome) {
 	M, err := decodeMsg(c.Rule.In, c.Msg)
 	if err != nil {
 		o.inconcl = "bad case: " + err.Error()
 		return
 	}
-	resp, calls := serve(e, c.Req)
-	if resp.Wedged {
-		o.inconcl = "request did not return within the watchdog"
+	kind, what, inconcl, resp := posOnce(e, c, M, c.Req)
+	if inconcl != "" {
+		o.inconcl = inconcl
 		return
 	}
-	if resp.Panic != nil {
-		o.add(resp.Panic.Key(), fmt.Sprintf("%s %s?%s panicked: %s", c.Req.Verb, c.Req.Path, c.Req.RawQuery, resp.Panic.Value))
+	if kind != "" {
+		if c.Req.Transport != "" {
+			if k2, _, _, _ := posOnce(e, c, M, c.Req.defaultTransport()); k2 == "" {
+				ct := "absent"
+				if v := c.Req.Header["Content-Type"]; len(v) > 0 {
+					ct = v[0]
+				}
+				if strings.HasPrefix(kind, "panic@") {
+					o.add(kind, what)
+				} else {
+					o.add(kind+":transport:"+c.Req.Transport, what+" (Content-Type "+ct+") - the same request with Content-Length, one read and a single gzip member is delivered correctly")
+				}
+				return
+			}
+		}
+		if strings.HasPrefix(kind, "panic@") {
+			o.add(kind, what)
+		} else {
+			o.add(kind+":"+c.Class, what)
+		}
 		return
 	}
-	switch {
-	case len(calls) == 0:
-		o.add("c03:rejected-valid:"+c.Class, fmt.Sprintf("rule %s %s body=%q: %s %s?%s answered %d (%s) instead of delivering %s",
-			c.Rule.Verb, c.Rule.Tmpl, c.Rule.Body, c.Req.Verb, c.Req.Path, c.Req.RawQuery, resp.Code, bodySnippet(resp.Body), jsonOf(M)))
-	case len(calls) > 1:
-		o.add("c03:handler-invoked-twice:"+c.Class, fmt.Sprintf("%d handler invocations", len(calls)))
-	case !proto.Equal(calls[0].msg, M):
-		o.add("c03:wrong-value:"+c.Class, fmt.Sprintf("rule %s %s body=%q: %s %s?%s delivered a different message: %s",
-			c.Rule.Verb, c.Rule.Tmpl, c.Rule.Body, c.Req.Verb, c.Req.Path, c.Req.RawQuery, diffFields(M, calls[0].msg)))
-	default:
-		o.distinct = "pos|" + c.Rule.ID + "|" + c.Class
-		ch, _, _ := strings.Cut(c.Class, ":")
-		if ch == "multi" {
-			ch = c.Class
-		}
-		o.count("delivered_equal_via_" + ch)
-		if resp.Code != 200 {
-			o.count("delivered_but_status_not_200")
-		}
+	o.distinct = "pos|" + c.Rule.ID + "|" + c.Class
+	ch, _, _ := strings.Cut(c.Class, ":")
+	if ch == "multi" {
+		ch = c.Class
+	}
+	o.count("delivered_equal_via_" + ch)
+	if c.Req.Transport != "" {
+		o.more = append(o.more, "pos-transport|"+c.Rule.bodyShape()+"|"+ch+"|"+c.Req.Transport)
+		o.count("delivered_equal_body_as_" + c.Req.Transport)
+	}
+	if c.Mux != "" {
+		o.count("delivered_equal_on_mux_" + c.Mux)
+	}
+	if resp.Code != 200 {
+		o.count("delivered_but_status_not_200")
 	}
 	return
 }
@@ -333,6 +382,7 @@ type gen struct {
 	r   *mon.Run
 	rng *rand.Rand
 	n   int // case counter (rotates encodings / namings)
+	t   int // counter of requests with a body (rotates delivery features / muxes)
 }
 
 func (g *gen) nextEnc() bodyEnc {
@@ -377,11 +427,21 @@ func (g *gen) finish(p *plan, M proto.Message, idx int, class func(enc bodyEnc) 
 	if err != nil {
 		return nil, err
 	}
+	mux := ""
+	if q.Body != nil {
+		g.t++
+		applyTransport(g.rng, &q, transportFeatures[g.t%len(transportFeatures)])
+		if enc.custom() || g.t%2 == 0 {
+			mux = muxCustom
+		}
+	} else if g.n%2 == 0 {
+		mux = muxCustom
+	}
 	wireM, err := proto.Marshal(M)
 	if err != nil {
 		return nil, err
 	}
-	return &Case{Prop: "C03", Kind: "c03-pos", Class: class(enc), Rule: p.rule, Req: q, Msg: wireM, MsgJSON: jsonOf(M)}, nil
+	return &Case{Prop: "C03", Kind: "c03-pos", Class: class(enc), Rule: p.rule, Mux: mux, Req: q, Msg: wireM, MsgJSON: jsonOf(M)}, nil
 }
 
 // single builds the case "only this leaf (plus the path-bound fields)".
@@ -616,7 +676,7 @@ func sameOneofAsVar(p *plan, lf leaf) bool {
 	return false
 }
 
-const ruleC03 = "rules: body '*', body <field>, no body; path variables on top-level, nested and doubly nested fields, custom json_name fields, typed / enum / bytes / oneof / well-known-type variables, multi-segment and ** patterns, verb suffix; over the harness type vf.Req (dynamic), larking.testpb.ComplexRequest (dynamic rules) and the real larking.testpb annotations (Messaging, WellKnown, Complex). Positive cases: (a) systematic - every URL-expressible leaf field (depth <= 3) x every entry of its boundary table (int/uint 32/64 extremes, +-0, subnormal/max floats, empty/long/unicode/percent/quote strings, all base64 alphabets and padding lengths, enum names and unknown numbers, lists of length 1-3, every oneof arm, wrappers, Timestamp min/max/nanos, Duration +-, FieldMask nested paths), alone in a message with the path-bound fields; (b) random multi-field messages incl. maps, repeated messages, Struct/Value/ListValue/Any/Empty in the body part. The message is split into path captures (documented path characters only), percent-encoded query pairs (proto names / JSON names / mixed, shuffled keeping element order, enums by name or number) and a body (application/json with protojson option variations, application/protobuf, application/octet-stream, Content-Type absent; with and without Content-Encoding: gzip); the recording handler must receive a proto.Equal message. Scope of positive claims: canonical protojson text forms, finite floats, no null, wrapper strings not enclosed in double quotes, maps / repeated messages / Struct / Any only in the body, body selectors on top-level fields. One-sided cases: hostile text tables per kind and random single-character mutations of canonical texts through the query string and (path-safe texts) the path: if protojson rejects the text as bare and as quoted JSON scalar the request must fail before the handler; if larking accepts, the delivered message must equal a protojson reading. distinct = (rule, channel path|query|body-<codec>[+gzip], field kind class, value/text class, outcome)"
+const ruleC03 = "rules: body '*', body <field>, no body; path variables on top-level, nested and doubly nested fields, custom json_name fields, typed / enum / bytes / oneof / well-known-type variables, multi-segment and ** patterns, verb suffix; over the harness type vf.Req (dynamic), larking.testpb.ComplexRequest (dynamic rules) and the real larking.testpb annotations (Messaging, WellKnown, Complex). Positive cases: (a) systematic - every URL-expressible leaf field (depth <= 3) x every entry of its boundary table (int/uint 32/64 extremes, +-0, subnormal/max floats, empty/long/unicode/percent/quote strings, all base64 alphabets and padding lengths, enum names and unknown numbers, lists of length 1-3, every oneof arm, wrappers, Timestamp min/max/nanos, Duration +-, FieldMask nested paths), alone in a message with the path-bound fields; (b) random multi-field messages incl. maps, repeated messages, Struct/Value/ListValue/Any/Empty in the body part. The message is split into path captures (documented path characters only), percent-encoded query pairs (proto names / JSON names / mixed, shuffled keeping element order, enums by name or number) and a body (application/json with protojson option variations, application/protobuf, application/octet-stream, Content-Type absent; with and without Content-Encoding: gzip). Every rule is registered on two muxes - default options, and two extra media types (application/x-vf-json, application/x-vf-proto, magic-prefixed protojson / wire codecs) added with larking.CodecOption, whose bodies are sent too; cases alternate between them. Requests with a body rotate through one delivery feature each: HTTP/1.1 Content-Length (default), HTTP/2 with content-length, HTTP/2 without (ContentLength -1, no Transfer-Encoding), HTTP/1.0 close-delimited (ContentLength -1), HTTP/1.1 chunked, fragmented reads (random cuts, 1-byte reads, data-with-EOF), gzip bodies of 2 and 3 members cut at random offsets and with an empty member (RFC 1952). The recording handler must receive a proto.Equal message; a failure that disappears when the same request is delivered the default way is keyed by the delivery feature. Scope of positive claims: canonical protojson text forms, finite floats, no null, wrapper strings not enclosed in double quotes, maps / repeated messages / Struct / Any only in the body, body selectors on top-level fields. One-sided cases: hostile text tables per kind and random single-character mutations of canonical texts through the query string and (path-safe texts) the path: if protojson rejects the text as bare and as quoted JSON scalar the request must fail before the handler; if larking accepts, the delivered message must equal a protojson reading. distinct = (rule, channel path|query|body-<codec>[+gzip], field kind class, value/text class, outcome)"
 
 // RunC03 is the transcoded-request-reconstruction check.
 func RunC03(r *mon.Run) {
@@ -625,15 +685,27 @@ func RunC03(r *mon.Run) {
 	r.Assume("expected values come from protojson / proto.Equal (textref); path text is placed in URL.Path verbatim and query values are percent-encoded with url.QueryEscape; requests are served in-process through Mux.ServeHTTP")
 	g := &gen{r: r, rng: r.Rand("c03")}
 	dyn, real := requestRules()
-	envD, err := buildDynamic(dyn)
-	if err != nil {
-		r.Inconclusive("harness: " + err.Error())
-		return
+	// every rule lives on two muxes: default options, and two extra media
+	// types registered with larking.CodecOption
+	envs := map[string]*env{}
+	for _, kind := range []string{"", muxCustom} {
+		envD, err := buildDynamic(dyn, kind)
+		if err != nil {
+			r.Inconclusive("harness: " + err.Error())
+			return
+		}
+		envR, err := buildTestpb(kind)
+		if err != nil {
+			r.Inconclusive("harness: " + err.Error())
+			return
+		}
+		envs["dyn|"+kind], envs["real|"+kind] = envD, envR
 	}
-	envR, err := buildTestpb()
-	if err != nil {
-		r.Inconclusive("harness: " + err.Error())
-		return
+	envOf := func(c *Case) *env {
+		if c.Rule.Svc != "" {
+			return envs["real|"+c.Mux]
+		}
+		return envs["dyn|"+c.Mux]
 	}
 	all := append(append([]RuleSpec(nil), dyn...), real...)
 	nMulti := r.Pick(150, 6000)
@@ -643,10 +715,6 @@ func RunC03(r *mon.Run) {
 		if err != nil {
 			r.Inconclusive("harness: " + err.Error())
 			continue
-		}
-		e := envD
-		if rule.Svc != "" {
-			e = envR
 		}
 		run := func(c *Case, err error) bool {
 			if err != nil {
@@ -659,7 +727,7 @@ func RunC03(r *mon.Run) {
 			if c == nil {
 				return true
 			}
-			return apply(r, c, execCase(e, c))
+			return apply(r, c, execCase(envOf(c), c))
 		}
 		leaves := urlLeaves(p.in, 3)
 		// (a) systematic single-leaf cases
@@ -688,8 +756,8 @@ func RunC03(r *mon.Run) {
 				run(c, err)
 				continue
 			}
-			o := execCase(e, c)
-			if len(o.viols) > 0 {
+			o := execCase(envOf(c), c)
+			if len(o.viols) > 0 && !strings.Contains(o.viols[0].key, ":transport:") {
 				M, _ := decodeMsg(rule.In, c.Msg)
 				reduced := false
 				for _, lf := range setLeavesOf(M, 3) {
@@ -713,7 +781,7 @@ func RunC03(r *mon.Run) {
 					if err != nil {
 						continue
 					}
-					if o1 := execCase(e, c1); len(o1.viols) > 0 {
+					if o1 := execCase(envOf(c1), c1); len(o1.viols) > 0 {
 						reduced = true
 						apply(r, c1, o1)
 					}
